@@ -14,7 +14,7 @@ import sys
 sys.unraisablehook = lambda *args: None   # silence GC-time clean-up of abandoned coroutines
 
 import usim
-from usim import eternity, Scope, until, time, Flag, Lock, instant, Concurrent, TaskCancelled, \
+from usim import interval, delay, IntervalExceeded, eternity, Scope, until, time, Flag, Lock, instant, Concurrent, TaskCancelled, \
     TaskClosed, CancelTask, Queue, Channel, StreamClosed, Resources, Capacities, ResourcesUnavailable
 from usim._core.loop import Interrupt, Loop
 from usim._primitives.context import CancelScope, ScopeClosed
@@ -53,6 +53,7 @@ class World:
         self.stream_id = {id(q): ('q', i) for i, q in self.queues.items()}
         self.stream_id.update({id(c): ('ch', i) for i, c in self.chans.items()})
         self.iters = {}       # (activity, channel) -> async iterator of a consumer
+        self.ticks = {}       # ticker key -> date of its last tick
         mk = Resources if reskind == 'res' else Capacities
         self.pools = {i + 1: mk(a=resinit) for i in range(nres)}   # pool id -> supply / open share
         self.npool = nres
@@ -95,6 +96,8 @@ class World:
             return ['tclosed', ctx_task]
         if isinstance(err, StreamClosed):
             return ['streamclosed'] + list(self.stream_id.get(id(err.stream), ('?', 0)))
+        if isinstance(err, IntervalExceeded):
+            return ['exceeded']
         if isinstance(err, ResourcesUnavailable):
             return ['unavailable', getattr(err, '_verif_pool', 0)]
         if isinstance(err, StopAsyncIteration):
@@ -405,6 +408,35 @@ class Puppet:
             except RuntimeError:
                 pass
         self.emit('p', op='cstop', c=op['c'])
+
+    # ------------------------------------------------------------ tickers
+    async def op_tick(self, op):
+        key = (self.a, 'tick', op['i'])
+
+        async def f():
+            it = self.w.iters.get(key)
+            if it is None:
+                it = self.w.iters[key] = (interval if op['kind'] == 'interval' else delay)(op['p']).__aiter__()
+            try:
+                return await it.__anext__()
+            except BaseException:
+                self.w.iters.pop(key, None)     # the generator is finished
+                raise
+        args = {'i': op['i'], 'kind': op['kind'], 'p': op['p']}
+        # expectation with the same float expressions as the ticker (used for non-integer dates only)
+        now = time.now
+        last = self.w.ticks.get(key, now)
+        if op['kind'] == 'interval':
+            args['late'] = (last + op['p'] - now) < 0
+            args['due'] = last + op['p']
+        else:
+            args['due'] = now + op['p']
+        self.w.ticks[key] = args['due']
+        try:
+            await self.leafv(op, f, args, {'i': op['i']})
+        finally:
+            if key not in self.w.iters:
+                self.w.ticks.pop(key, None)
 
     # ------------------------------------------------------------ resources
     async def op_borrow(self, op):
